@@ -29,10 +29,14 @@ def gen_case(ctx, i):
     model = ["single", "topdown", "bottomup"][i % 3]
     sizes = [(int(r.integers(150, 230)), int(r.integers(160, 234))), (int(r.integers(140, 200)), int(r.integers(150, 234)))]
     F = int(r.integers(3, 9)) if ctx.tier == "thorough" else int(r.integers(3, 6))
-    big = (i % 12 == 8)  # a bottom-up batch with more frames than any side of the PAF grid (small frames, stride 4): 34-44 frames in one batch
-    if big:
-        sizes = [(96, 112), (96, 112)]
+    big = (i % 12 == 8)  # a bottom-up batch with more frames than any side of the PAF grid and more than 512 peaks
+    many = big and (i // 12) % 2 == 1
+    if big and not many:
+        sizes = [(96, 112), (96, 112)]  # PAF grid 24x28 at stride 4: a batch of 34-44 frames exceeds both sides; limbs up to 37 px > edge-length limit 28 px
         F = int(r.integers(34, 45))
+    if many:
+        sizes = [(160, 176), (160, 176)]  # ~4-5 animals x 3 nodes x 48-52 frames: more than 512 local peaks refined in one call
+        F = int(r.integers(48, 53))
     frames = []
     for k in range(F):
         v = int(r.integers(0, 2))
@@ -40,13 +44,13 @@ def gen_case(ctx, i):
         if model == "single" and r.random() < 0.2:
             n_an = 0
         if big:
-            n_an = int(r.choice([0, 1, 1]))
+            n_an = 6 if many else int(r.choice([0, 1, 1]))
         frames.append({"video": v, "n_animals": n_an})
     mi = [None, None, 1, 2, 3][int(r.integers(0, 5))] if model == "topdown" else None
     ties = bool(mi is not None and not big and r.random() < 0.4)  # equally confident animals across the max_instances cut
     if ties:
         sizes = [sizes[0], sizes[0]]  # no rescaling: centroids can sit exactly on grid cells
-    return {"i": i, "model": model, "sizes": sizes, "frames": frames, "refinement": [None, "integral"][int(r.integers(0, 2))], "seed": int(r.integers(0, 2 ** 31)),
+    return {"i": i, "model": model, "sizes": sizes, "frames": frames, "refinement": "integral" if many else [None, "integral"][int(r.integers(0, 2))], "seed": int(r.integers(0, 2 ** 31)),
             "max_instances": mi, "ties": ties, "stride": 4 if big else int(r.choice([2, 4])), "n_nodes": 3, "big": big}
 
 
@@ -234,6 +238,9 @@ def check(ctx, case):
             if case.get("big") and pi == 0:
                 batch = len(order)  # every frame in one batch
                 ctx.count("big_batches")
+                n_pk = sum(int((~np.isnan(p_).any(-1)).sum()) for k_ in order for p_ in sf.scene.poses[sf.code_of[k_]])
+                if n_pk > 512:
+                    ctx.count("batches_with_more_than_512_peaks")
             if pi % 3 == 2 and F > 2:  # different composition: drop a frame
                 order = order[:-1]
             path = sf.write_labels(order, f"perm{pi}.slp")
@@ -337,6 +344,7 @@ def finalize(ctx):
     ctx.require("variant_runs", 12)
     ctx.require("frame_comparisons", 40)
     ctx.require("big_batches", 1)
+    ctx.require("batches_with_more_than_512_peaks", 1)
     ctx.require("capped_frames_with_tie_at_cut", 1)
 
 
